@@ -54,16 +54,85 @@ def _short(x, np):
     return repr(x)[:120]
 
 
+def hdr(np, a):
+    """everything observable about an array besides its bytes: class, dtype, shape, strides, the WRITEABLE / ALIGNED flags
+    and the instance attributes of an ndarray subclass (a Vec has a __dict__)"""
+    d = getattr(a, "__dict__", None)
+    return (type(a).__name__, a.dtype.str, tuple(a.shape), tuple(a.strides), bool(a.flags.writeable), bool(a.flags.aligned),
+            tuple(sorted((str(k), repr(v)[:60]) for k, v in d.items())) if d else ())
+
+
+HDR_FIELDS = ("class", "dtype", "shape", "strides", "writeable_flag", "aligned_flag", "instance_attributes")
+
+
+def hdr_diff(h0, h1):
+    """names of the header fields that differ"""
+    return [f for f, x, y in zip(HDR_FIELDS, h0, h1) if x != y]
+
+
+def _leaves(v, np, AABB, out, depth=0):
+    """flattens a result into (tag | number) leaves for the tolerant comparison of two argument forms"""
+    if isinstance(v, AABB):
+        out.append("box"); _leaves(v.mini, np, AABB, out, depth + 1); _leaves(v.maxi, np, AABB, out, depth + 1)
+    elif isinstance(v, np.ndarray) and v.ndim == 0 and v.dtype != object:
+        out.append(complex(v.item()))          # a 0-d array (np.sum of a Vec is a 0-d Vec) is a number
+    elif isinstance(v, np.ndarray):
+        out.append(("arr", tuple(v.shape)))
+        if v.dtype == object:
+            out.extend(repr(x) for x in v.ravel().tolist())
+        else:
+            out.extend(complex(x) for x in v.ravel().tolist())
+    elif isinstance(v, (tuple, list)) and depth < 6:
+        out.append(("seq", len(v)))
+        for x in v:
+            _leaves(x, np, AABB, out, depth + 1)
+    elif isinstance(v, (bool, np.bool_)):
+        out.append(("bool", bool(v)))
+    elif isinstance(v, (int, float, complex, np.number)):
+        out.append(complex(v))
+    else:
+        out.append(("other", type(v).__name__, repr(v)[:80]))
+
+
+def same_result(a, b, np, AABB, tol=1e-9):
+    la, lb = [], []
+    _leaves(a, np, AABB, la); _leaves(b, np, AABB, lb)
+    if len(la) != len(lb):
+        return False
+    for x, y in zip(la, lb):
+        if isinstance(x, complex) and isinstance(y, complex):
+            if x == y or (x != x and y != y):
+                continue
+            if x != x or y != y or abs(x) == float("inf") or abs(y) == float("inf"):
+                return False
+            if abs(x - y) > tol * max(abs(x), abs(y)):
+                return False
+        elif x != y:
+            return False
+    return True
+
+
 class Guard:
     """Calls real code; after every call (return or raise) checks that numpy.geterr() is what it was
-    and that every array / box / list passed as argument is byte-identical; restores the error state so
-    that one execution cannot pollute the next.  Violations are de-duplicated per task by fingerprint."""
+    and that every array / box / list passed as argument is byte-identical AND has the header it had (class, dtype,
+    shape, strides, WRITEABLE / ALIGNED flags, instance attributes); restores the error state so
+    that one execution cannot pollute the next.  Violations are de-duplicated per task by fingerprint.
 
-    def __init__(self, rep, np, AABB, init, lib_dir):
+    Argument-form deviation: the swept sweeps hand plain numpy arrays; the documented argument type of the primitives is
+    mouette's Vec.  For every entry point (callee name) the first VEC_FIRST guarded calls of a task and every VEC_EVERY-th
+    one after that are repeated with every plain 1-D numeric array argument replaced by a Vec that owns a copy of the
+    data; the repeated call is guarded like any other (bytes, header, numpy error state of the Vec arguments) and its
+    answer must be the answer of the array form (relative 1e-9; 'raises' against 'returns' is counted, not judged).
+    Calls made through a lambda (documented in-place targets hidden from the guard) are not repeated."""
+    VEC_FIRST, VEC_EVERY = 4, 8
+
+    def __init__(self, rep, np, AABB, init, lib_dir, Vec=None):
         self.rep, self.np, self.AABB, self.init, self.lib_dir = rep, np, AABB, dict(init), lib_dir
+        self.Vec = Vec
         self.seen = set()
         self.blamed = {}
         self.ncalls = 0
+        self.per_name = {}
         np.seterr(**self.init)
 
     def viol(self, sub, callee, kind, icls, detail):
@@ -75,13 +144,38 @@ class Guard:
         self.rep.violation(sub, callee, kind, icls, detail)
 
     def call(self, name, fn, *args, **kw):
+        ok, val, exc = self._guarded(name, fn, args, kw, "")
+        np, Vec = self.np, self.Vec
+        if Vec is not None and getattr(fn, "__name__", "") != "<lambda>":
+            plain = [i for i, a in enumerate(args) if type(a) is np.ndarray and a.ndim == 1 and a.dtype.kind in "fiu"]
+            if plain:
+                n = self.per_name[name] = self.per_name.get(name, 0) + 1
+                if n <= self.VEC_FIRST or n % self.VEC_EVERY == 0:
+                    args2 = list(args)
+                    for i in plain:
+                        args2[i] = Vec(args[i].copy())
+                    ok2, val2, exc2 = self._guarded(name, fn, tuple(args2), kw, ":Vec_argument")
+                    self.rep.count("forms:vec_argument_reruns")
+                    self.rep.flag("vecform:" + name)
+                    if ok != ok2:
+                        self.rep.count(f"observed:vec_argument_outcome_differs:{name}:{'returns' if ok2 else 'raises'}")
+                    elif ok:
+                        self.rep.count("eval:C12.forms.vec_argument")
+                        self.rep.evaluations += 1
+                        if not same_result(val, val2, np, self.AABB):
+                            self.viol("C12.forms.vec_argument", name, "mismatch:differs_from_ndarray_argument", "Vec_argument",
+                                      {"call": name, "args": [_short(x, np) for x in args], "ndarray_form": repr(val)[:200],
+                                       "Vec_form": repr(val2)[:200]})
+        return ok, val, exc
+
+    def _guarded(self, name, fn, args, kw, form):
         np = self.np
         snaps = []
         for i, a in enumerate(args):
             if isinstance(a, np.ndarray):
-                snaps.append((i, a, a.shape, a.tobytes()))
+                snaps.append((i, a, hdr(np, a), a.tobytes()))
             elif isinstance(a, self.AABB):
-                snaps.append((i, a, None, (a.mini.tobytes(), a.maxi.tobytes())))
+                snaps.append((i, a, None, (a.mini.tobytes(), a.maxi.tobytes(), hdr(np, a.mini), hdr(np, a.maxi))))
             elif isinstance(a, list):
                 snaps.append((i, a, "list", repr(a)))
         try:
@@ -92,20 +186,31 @@ class Guard:
         self.ncalls += 1
         if np.geterr() != self.init:
             self._errstate(name, fn, args, kw, ok)
-        for i, a, shp, img in snaps:
-            if shp is None:
-                now = (a.mini.tobytes(), a.maxi.tobytes())
-            elif shp == "list":
-                now = repr(a)
+        for i, a, h0, img in snaps:
+            what, changed, before, after = None, False, None, None
+            if h0 is None:
+                now = (a.mini.tobytes(), a.maxi.tobytes(), hdr(np, a.mini), hdr(np, a.maxi))
+                changed = now[:2] != img[:2]
+                what = sorted(set(hdr_diff(img[2], now[2]) + hdr_diff(img[3], now[3])))
+                before, after = img[2:], now[2:]
+            elif h0 == "list":
+                changed = repr(a) != img
             else:
-                now = a.tobytes()
-                if a.shape != shp:
-                    now = None
-            if now != img:
+                h1 = hdr(np, a)
+                what = hdr_diff(h0, h1)
+                changed = a.tobytes() != img or "shape" in what
+                before, after = h0, h1
+            if changed:
                 self.viol("C12.effects.arguments_unchanged", name, "side_effect:argument_changed",
-                          f"arg{i}:{'returns' if ok else 'raises'}",
+                          f"arg{i}:{'returns' if ok else 'raises'}{form}",
                           {"call": name, "args_after": [_short(x, np) for x in args], "arg_index": i,
                            "before_bytes": repr(img)[:200]})
+            elif what:
+                self.viol("C12.effects.arguments_unchanged", name, "side_effect:argument_header_changed",
+                          f"{'+'.join(what)}{form}",
+                          {"call": name, "args_after": [_short(x, np) for x in args], "arg_index": i, "changed": what,
+                           "outcome": "returned" if ok else "raised " + str(exc),
+                           "header_before": repr(before), "header_after": repr(after)})
         return ok, val, exc
 
     def _errstate(self, name, fn, args, kw, ok):
